@@ -161,7 +161,23 @@ def gen_pairs(ctx, n):
             t1, t2 = V.plant(rng, rng.choice([0, 0, 1]), (a, b))
             ctx.count("gen:tuple_rows")
         elif r < 0.6:
-            a, b, kinds = V.gen_atom_list_pair(rng)
+            if rng.random() < 0.3:
+                # ==-equal atoms of different type (1 / True / 1.0, 0 / False / 0.0): difflib puts them into one
+                # 'equal' block; whatever is reported for such a pair must still resolve on both sides (seeded C04-8)
+                alph = rng.choice([[1, True, 1.0, 2], [0, False, 0.0, "a"], [1, 2, 3, 4], [2, 2.0, "x", None]])
+                a, b, kinds = V.gen_atom_list_pair(rng, alphabet=alph)
+                ALIAS = {1: [True, 1.0], True: [1, 1.0], 0: [False, 0.0], False: [0, 0.0], 2: [2.0], 3: [3.0], 4: [4.0]}
+                for _ in range(rng.randint(1, 3)):
+                    if b:
+                        j = rng.randrange(len(b))
+                        for k0, al in ALIAS.items():
+                            if type(b[j]) is type(k0) and b[j] == k0:
+                                b[j] = rng.choice(al)
+                                kinds = kinds + ["retype_alias"]
+                                break
+                ctx.count("gen:atom_list_alias")
+            else:
+                a, b, kinds = V.gen_atom_list_pair(rng)
             t1, t2 = V.plant(rng, rng.choice([0, 0, 1, 2]), (a, b))
             ctx.count("gen:atom_list_edit")
             for k in kinds:
